@@ -93,6 +93,21 @@ func randCompose(rng *rand.Rand, n int) cmpCfg {
 		// than by its exit status: to the scheduler a failure is a failure, whatever its kind
 		c.TOFail[s-1] = !c.TAllow[s-1] && rng.Intn(3) == 0
 	}
+	// a quarter of the pipelines without an included pipeline have one stage whose condition cannot be
+	// evaluated: the loop stores Error for it and cancels the run (no task-level allow_failure there:
+	// whether an interruption is "allowed" is C12's business, not modelled here)
+	nested := false
+	for _, g := range c.Gr {
+		nested = nested || g == 1
+	}
+	if !nested && rng.Intn(4) == 0 {
+		k := rng.Intn(n)
+		c.Cls[k] = "CERR"
+		c.FailAt[k] = 1
+		for j := range c.TAllow {
+			c.TAllow[j] = false
+		}
+	}
 	// two including stages: half of the time the second one depends on the first, the first allows
 	// failure and a stage of the included pipeline fails - the second inclusion finds the pipeline
 	// already run (and failed)
@@ -229,10 +244,12 @@ func composeStage(b *strings.Builder, c cmpCfg, s int) {
 		b.WriteString("      allow_failure: true\n")
 	case "CFALSE":
 		b.WriteString("      condition: \"false\"\n")
+	case "CERR":
+		b.WriteString("      condition: \"/nonexistent/verif-no-such-condition\"\n")
 	}
 	// some stages have a condition that holds and some a (templated) directory of their own: neither
 	// changes what the model says, and the condition is evaluated where taskctl runs
-	if c.Cls[s-1] != "CFALSE" && (s+len(c.Deps[s-1]))%2 == 0 {
+	if c.Cls[s-1] != "CFALSE" && c.Cls[s-1] != "CERR" && (s+len(c.Deps[s-1]))%2 == 0 {
 		b.WriteString("      condition: \"true\"\n")
 	}
 	if !c.Inc[s-1] && (s+c.N)%3 == 0 {
@@ -241,7 +258,7 @@ func composeStage(b *strings.Builder, c cmpCfg, s int) {
 }
 
 func composeCfgFile(n int) []byte {
-	return []byte(fmt.Sprintf("CONSTANTS\n  N = %d\n  MaxCmd = 3\n  MaxVar = 2\n  NCtx = %d\n  Nesting = TRUE\n  TaskAllow = TRUE\n  AtomicLaunch = TRUE\n  ErrFirst = TRUE\n  HookKinds = {\"none\", \"ok\", \"fail\"}\nINIT TInit\nNEXT TNext\nCONSTRAINT HW\nINVARIANTS CommandsAfterDependencies StopsAtFailure FinalOK RunOnlyWhileStageRunning UpBeforeUse DownAfterAll OneUpAtATime NothingRunsAtReturn NoDoubleLaunch\nPOSTCONDITION PostCond\nCHECK_DEADLOCK FALSE\n", n, cmpNCtx))
+	return []byte(fmt.Sprintf("CONSTANTS\n  N = %d\n  MaxCmd = 3\n  MaxVar = 2\n  NCtx = %d\n  Nesting = TRUE\n  TaskAllow = TRUE\n  AtomicLaunch = TRUE\n  CondErr = TRUE\n  ErrFirst = TRUE\n  HookKinds = {\"none\", \"ok\", \"fail\"}\nINIT TInit\nNEXT TNext\nCONSTRAINT HW\nINVARIANTS CommandsAfterDependencies StopsAtFailure FinalOK CancelledFinal QuietAfterCancel RunOnlyWhileStageRunning UpBeforeUse DownAfterAll OneUpAtATime NothingRunsAtReturn NoDoubleLaunch\nPOSTCONDITION PostCond\nCHECK_DEADLOCK FALSE\n", n, cmpNCtx))
 }
 
 var reANSI = regexp.MustCompile("\x1b\\[[0-9;]*m")
@@ -337,6 +354,14 @@ func ComposeCheck(env *core.Env, rep *core.Report, k int, models ...string) map[
 				evs = append(evs, Event{"e": "ret", "s": id(e["s"]), "failed": e["failed"]})
 			case "RunEnter", "RunExit":
 				evs = append(evs, Event{"e": e["e"], "s": id(e["t"])})
+			case "RunRefused":
+				evs = append(evs, Event{"e": "refused", "s": id(e["t"])})
+			case "cancel":
+				evs = append(evs, Event{"e": "cancel"})
+			case "CancelSet":
+				evs = append(evs, Event{"e": "cset"})
+			case "CancelExit":
+				evs = append(evs, Event{"e": "cexit"})
 			case "CmdStart", "CmdEnd":
 				cmd, _ := e["cmd"].(string)
 				m := reJobTag.FindStringSubmatch(cmd)
@@ -520,6 +545,8 @@ func ComposeCheck(env *core.Env, rep *core.Report, k int, models ...string) map[
 					prop = "C06"
 				case "end":
 					prop = "C14"
+				case "cancel", "cset", "cexit", "refused":
+					prop = "C12"
 				}
 				switch ev["role"] {
 				case "up", "down", "cb", "ca":
@@ -537,6 +564,8 @@ func ComposeCheck(env *core.Env, rep *core.Report, k int, models ...string) map[
 					prop = "C02"
 				case "UpBeforeUse", "DownAfterAll", "OneUpAtATime":
 					prop = "C14"
+				case "CancelledFinal", "QuietAfterCancel":
+					prop = "C12"
 				}
 				props := []string{prop, "C03"}
 				if cix, ok := ev["c"].(int); ok && cix >= 1 && cix <= len(out[bad].cfg.UpFails) && out[bad].cfg.UpFails[cix-1] && ev["role"] != "up" && ev["role"] != "down" {
@@ -565,6 +594,24 @@ func ComposeCheck(env *core.Env, rep *core.Report, k int, models ...string) map[
 	wg.Wait()
 	info["binary_executions"] = total
 	info["accepted"] = accepted
+	nCErr, nRefused, nKilled := 0, 0, 0
+	for _, o := range out {
+		for _, cl := range o.cfg.Cls {
+			if cl == "CERR" {
+				nCErr++
+				break
+			}
+		}
+		for _, ev := range o.evs {
+			if ev["e"] == "refused" {
+				nRefused++
+			}
+			if ev["e"] == "CmdEnd" && ev["err"] == "ctx" {
+				nKilled++
+			}
+		}
+	}
+	info["runs_cancelled_by_a_condition_error"] = map[string]interface{}{"pipelines": nCErr, "runs_refused": nRefused, "jobs_interrupted": nKilled}
 	// binding self-test: the same log with one CmdEnd removed (two jobs of one run overlap) must be
 	// rejected - otherwise the trace specification constrains nothing
 	for _, o := range out {
